@@ -303,6 +303,15 @@ func directQiVerdicts(n *Node, arg int, fail func(class, witness, detail string)
 			u := Utxo{chainTx.Hash(), 0, &types.UtxoEntry{Denomination: o.Denomination, Address: o.Address, Lock: big.NewInt(0)}}
 			return BuildQiTx([]Utxo{u}, []types.TxOut{freshOut([]Utxo{u}, arg+3, o.Denomination-1)}, nil, nil)
 		}, true},
+		{"second-input-not-owned-same-pubkey", func() (*types.Transaction, error) {
+			// the spender's own output first, then somebody else's presented with the spender's key; aggregate signature of [k, k]
+			v := spendable[(arg+2)%len(spendable)]
+			kb := qiKeyByAddr[common.AddressBytes(b.Entry.Address)]
+			if v.Key() == b.Key() || qiKeyByAddr[common.AddressBytes(v.Entry.Address)] == kb {
+				return nil, fmt.Errorf("no victim")
+			}
+			return BuildQiTx([]Utxo{b, v}, []types.TxOut{freshOut([]Utxo{b, v}, arg, lower(b))}, nil, []*ecdsaKey{kb})
+		}, false},
 		{"two-input-musig-honest", func() (*types.Transaction, error) {
 			return BuildQiTx([]Utxo{b, spendable[(arg+2)%len(spendable)]}, []types.TxOut{freshOut([]Utxo{b, spendable[(arg+2)%len(spendable)]}, arg, lower(b))}, nil, nil)
 		}, len(spendable) >= 3 && spendable[(arg+2)%len(spendable)].Key() != b.Key() && spendable[(arg+2)%len(spendable)].Key() != a.Key()},
